@@ -158,6 +158,9 @@ func (s *Server) handleAcquire(msg protocol.Message) error {
 		} else {
 			return err
 		}
+		// The acquire failed and the client has been told: do not also
+		// announce an acquisition
+		return nil
 	}
 	respMsg := NewMsgAcquired()
 	if err := s.SendMessage(respMsg); err != nil {
